@@ -234,7 +234,7 @@ func Gen(r *rng.Rand, o GenOpts) History {
 	if o.Shutdown {
 		h.Steps = append(h.Steps, Step{Kind: "shutdown"})
 	}
-	if h.Mode == "bg" && !o.Shutdown {
+	if h.Mode == "bg" && (!o.Shutdown || o.MaxSteps == 9) { // C05's background histories
 		// timers fast enough to interleave with the requests
 		h.WalMs, h.PrimaryMs, h.Rotate, h.PauseMs = 20, 30+r.Intn(40), 2, 10+r.Intn(30)
 	}
